@@ -33,6 +33,9 @@ ASSUMPTIONS = [
     '(zero divisor, % with a negative operand, shift count outside 0..256 or of a negative value, bitwise/BYTEn on a '
     'non-integer, intermediates after / or % not exactly representable as IEEE double); they are counted in '
     'class_histogram as undefined:*',
+    'where the reference names no value because the property does not fix one (remainder with a negative operand, shift of '
+    'a negative value) a metamorphic relation is asserted instead: the tool gives the expression the same value when a '
+    'computed operand (an exact quotient, a product, a name) is replaced by the plain number it equals',
     'trailing-H hexadecimal literals are written with a leading decimal digit (the documented form, e.g. 08FH)',
     'the modulo operator is always followed by a space (a % directly followed by 0/1 is the binary-literal prefix)',
     'label names are drawn from a pool that cannot be read as a number, function or keyword',
@@ -87,6 +90,32 @@ def _cases(draw, tier):
         if draw(st.booleans()):
             ast = ['bin', draw(st.sampled_from(['+', '-', '*'])), ast, ['num', draw(st.integers(0, 3)), 'dec']]
         return {'kind': 'wf', 'layer': layer, 'ast': ast, 'sp': ' ', 'form': draw(st.integers(0, 2))}
+    if draw(st.integers(0, 14)) == 0:
+        # a remainder or shift whose operands are themselves computed (an exact quotient, a product, a difference, a
+        # name) and may be negative: the value depends on the operands' values only, not on how they were obtained
+        def operand(neg_ok=True):
+            k = draw(st.integers(1, 40))
+            sign = draw(st.sampled_from([1, 1, -1])) if neg_ok else 1
+            d = draw(st.sampled_from([1, 2, 3, 4, 7, 16]))
+            mag = ['num', k * d, draw(st.sampled_from(['dec', 'hex$']))]
+            if sign < 0:
+                mag = draw(st.sampled_from([['par', ['bin', '-', ['num', 0, 'dec'], mag]], ['neg', mag]]))
+            how = draw(st.sampled_from(['quot', 'quot', 'quot', 'prod', 'plain']))
+            if how == 'quot':
+                return ['bin', '/', mag, ['num', d, 'dec']]
+            if how == 'prod':
+                return ['par', ['bin', '*', ['bin', '/', mag, ['num', d, 'dec']], ['num', 1, 'dec']]]
+            return mag
+        op = draw(st.sampled_from(['%', '%', '%', '%', '>>', '<<']))
+        right = operand() if op == '%' else ['num', draw(st.integers(0, 5)), 'dec']
+        ast = ['bin', op, operand(), right]
+        wrap = draw(st.integers(0, 3))
+        if wrap == 1:
+            ast = ['bin', draw(st.sampled_from(['+', '-', '*'])), ast, ['num', draw(st.integers(0, 9)), 'dec']]
+        elif wrap == 2:
+            ast = ['byte', draw(st.integers(0, 1)), ast]
+        return {'kind': 'wf', 'layer': layer if layer in ('api', 'cli') else 'cli', 'ast': ast, 'sp': draw(st.sampled_from(['', ' '])),
+                'form': draw(st.integers(0, 2))}
     if draw(st.integers(0, 9)) < 7:
         ast = draw(_EXPR_CLI if layer == 'cli' else _EXPR_API)
         return {'kind': 'wf', 'layer': layer, 'ast': ast, 'sp': draw(st.sampled_from(['', ' ', ' ', '  ', '\t'])),
@@ -237,7 +266,28 @@ def execute(case, ctx):
         try:
             want = exprs.value_of(ast, LABELS)
         except exprs.Undefined as u:
-            return Outcome(classes=classes + [f'undefined:{u}'], evals=0)
+            classes.append(f'undefined:{u}')
+            flat, changed = exprs.flatten(ast, LABELS)
+            if not changed or str(u) not in ('modulo with a negative operand', 'shift of a negative value') or case['form'] > 2:
+                return Outcome(classes=classes, evals=0)
+            # the reference names no value here (the property does not fix the sign of such a remainder), but whatever
+            # the value is, it is the same when a computed operand is replaced by the plain number it equals
+            text2 = exprs.render(flat, ' ')
+            if layer == 'api':
+                g1, g2 = _run_api(text), _run_api(text2)
+                detail = {'text': text, 'same_operand_values_written_plainly': text2, 'got': list(g1), 'got_plain': list(g2)}
+            else:
+                g1, src, res = _run_cli(text, 1)
+                g2, src2, res2 = _run_cli(text2, 1)
+                detail = {'text': text, 'same_operand_values_written_plainly': text2, 'got': list(g1), 'got_plain': list(g2),
+                          'source': src, 'run': res.brief()}
+            classes.append('metamorphic:computed-operand-vs-plain-number')
+            if g1[0] == 'value' and g2[0] == 'value' and g1[1] is not None and g2[1] is not None:
+                classes.append('metamorphic:both-valued')
+                if g1[1] != g2[1]:
+                    findings.append(Finding('C07/value-depends-on-how-an-operand-was-computed', detail))
+                return Outcome(findings, True, classes, 2, sample={'text': text, 'plain': text2, 'layer': layer, 'value': g1[1]})
+            return Outcome(findings, False, classes, 2)
         feats = exprs.features(ast)
         if layer == 'api':
             got = _run_api(text)
